@@ -8,6 +8,7 @@ use crate::engine::*;
 use crate::fdtview;
 use crate::rng::Rng;
 use crate::sdrv::*;
+use crate::spec::*;
 use serde::{Deserialize, Serialize};
 use serde_json::Value;
 use std::collections::BTreeSet;
@@ -50,6 +51,25 @@ pub fn gen(rng: &mut Rng, tier: Tier) -> Scn {
     if rng.chance(0.3) {
         if let Some(p) = s.ops.iter().position(|t| t.op == Op::Publish) {
             s.ops[p].when = When::AtUs(rng.range(0, 300_000));
+        }
+    }
+    // publications that can FAIL (the FDT itself cannot be encoded with the sender-wide FEC parameters): a
+    // Raptor FDT of 2-3 symbols, Reed-Solomon without parity symbol. Objects bring their own OTI.
+    if rng.chance(0.12) {
+        s.spec.oti = if rng.chance(0.6) {
+            OtiSpec::new(Scheme::Raptor, *rng.pick(&[256u16, 400, 512, 700]), 64, 1, true)
+        } else {
+            OtiSpec::new(Scheme::Rs28, *rng.pick(&[64u16, 512, 1400]), 64, 0, true)
+        };
+        if rng.chance(0.8) {
+            s.spec.full_fdt = true;
+        }
+        // objects that can never be announced are never sent: do not poll for ever
+        s.poll.max_polls = s.poll.max_polls.min(400);
+        for o in s.objects.iter_mut() {
+            if o.oti.is_none() {
+                o.oti = Some(OtiSpec::new(Scheme::NoCode, 16, 8, 0, rng.chance(0.5)));
+            }
         }
     }
     Scn { sender: s }
@@ -107,6 +127,11 @@ pub fn oracle(scn: &SenderScn, ctx: &Ctx, trace: &SenderTrace) {
             );
         }
     }
+    let failed_publications = trace.ops.iter().filter(|r| r.op == Op::Publish && r.result == OpResult::Published(false)).count();
+    if failed_publications > 0 {
+        ctx.borrow_mut().note_n("publications-failed", failed_publications as u64);
+        ctx.borrow_mut().count_fault("publish-fails");
+    }
     // rule 3: after an explicit publication nothing but FDT packets until the new instance is out
     for r in &trace.ops {
         if r.op != Op::Publish || r.result != OpResult::Published(true) {
@@ -138,6 +163,39 @@ pub fn oracle(scn: &SenderScn, ctx: &Ctx, trace: &SenderTrace) {
                     r.seq, q.idx, q.dec.toi, newtx.map(|t| t.instance_id)
                 ),
             );
+        }
+    }
+    // rule 4 (being-transferred mode): a transfer start publishes a new instance; from the StartTransfer
+    // event until that instance is completely out no object packet at all is emitted (not only none of the
+    // starting object, which rule 1 covers)
+    if !scn.spec.full_fdt {
+        for e in trace.sub.iter().filter(|e| e.start) {
+            // the first own packet of this transfer
+            let own = match trace.pkts.iter().find(|p| p.seq > e.seq && p.dec.toi == e.toi) {
+                Some(p) => p.seq,
+                None => continue,
+            };
+            let ids_before: BTreeSet<u32> = txs.iter().filter(|t| trace.pkts[t.first].seq < e.seq).map(|t| t.instance_id).collect();
+            let newtx = match txs.iter().find(|t| {
+                let s = trace.pkts[t.first].seq;
+                s > e.seq && s < own && !ids_before.contains(&t.instance_id)
+            }) {
+                Some(t) => t,
+                None => continue,
+            };
+            let until = trace.pkts[newtx.complete_at.unwrap_or(newtx.last)].seq;
+            if let Some(q) = trace.pkts.iter().find(|q| q.seq > e.seq && q.seq < until && q.dec.toi != 0 && !q.dec.close_session) {
+                violate(
+                    ctx,
+                    "C11/object-while-fdt-pending",
+                    "transfer-start",
+                    format!(
+                        "toi={} starts at event {} and FDT instance {} announcing it is pending, but packet {} (toi={}) is emitted before that instance is out (packets {}..{})",
+                        e.toi, e.seq, newtx.instance_id, q.idx, q.dec.toi, newtx.first, newtx.complete_at.unwrap_or(newtx.last)
+                    ),
+                );
+                break;
+            }
         }
     }
 }
